@@ -96,6 +96,13 @@ public:
         FASTOR_ASSERT(src.self().size()==size(), "TENSOR SIZE MISMATCH");
         assign(*this, src.self());
     }
+    // Assigning a map of the same type copies the elements like every other assignment to a map does;
+    // the implicitly generated copy assignment would instead re-seat the map on the other buffer
+    FASTOR_INLINE TensorMap<T,Rest...>& operator=(const TensorMap<T,Rest...>& src) {
+        assign(*this, src);
+        return *this;
+    }
+    constexpr TensorMap(const TensorMap<T,Rest...>&) = default;
 
     // AbstractTensor and scalar in-place operators
     //----------------------------------------------------------------------------------------------------------//
